@@ -14,7 +14,7 @@ use std::process::{Command, Stdio};
 pub fn strategy(thorough: bool) -> BoxedStrategy<Case> {
     // no raw partial file copies and no time travel: their selectors address items / head sets by
     // block identifier order, which legitimately varies from run to run
-    let mix = Mix { update: 10, commit: 6, meldrefresh: 7, meld: 1, refresh: 1, reload: 1, reopen: 1, filecopy: 0, resolve: 3, unstage: 1, stagert: 1, snapshot: 1, timetravel: 0, lowlevel: 0, mergecommit: 2, churn: 1, faultycommit: 0, foreign: 0, faultymeld: 0, snaprace: 2, rich: false, rich_info: false };
+    let mix = Mix { update: 10, commit: 6, meldrefresh: 7, meld: 1, refresh: 1, reload: 1, reopen: 1, filecopy: 0, resolve: 3, unstage: 1, stagert: 1, snapshot: 1, timetravel: 0, lowlevel: 0, mergecommit: 2, churn: 1, faultycommit: 0, foreign: 0, faultymeld: 0, snaprace: 2, tornblock: 0, rich: false, rich_info: false };
     let len = if thorough { 60 } else { 40 };
     (2u8..=3, gen::history(&mix, len), crate::props::fin_plan(3))
         .prop_map(|(n, ops, mut fin)| {
